@@ -562,6 +562,101 @@ func (fx *fctx) callStatic(st *State, fn *types.Func, recvExpr ast.Expr, sel *ty
 	return fx.callContract(st, fi, con, recv, args, ce)
 }
 
+// verifyLiteralArg: the function literal lit (argument of a call by contract) against its `closure litN` contract.
+// The callee may run it any number of times, in states this function does not see: the literal's parameters, the
+// captured variables it assigns and the whole heap are arbitrary, constrained only by the closure's `requires`
+// (what the callee guarantees at each call — the callee's own proof asserts it, e.g. Range's precall assertion).
+func (fx *fctx) verifyLiteralArg(st *State, lit *ast.FuncLit, ce *ast.CallExpr) {
+	e := fx.e
+	if fx.con == nil || fx.spec || st.dead {
+		return
+	}
+	n := 0
+	k := 0
+	ast.Inspect(fx.fi.Decl.Body, func(nd ast.Node) bool {
+		if l, ok := nd.(*ast.FuncLit); ok {
+			k++
+			if l == lit {
+				n = k
+			}
+		}
+		return true
+	})
+	name := fmt.Sprintf("lit%d", n)
+	cc := fx.con.Closures[name]
+	if n == 0 || cc == nil || fx.litDone[lit] {
+		return
+	}
+	if fx.litDone == nil {
+		fx.litDone = map[*ast.FuncLit]bool{}
+	}
+	fx.litDone[lit] = true
+	sig, _ := e.P.Info.TypeOf(lit).(*types.Signature)
+	if sig == nil {
+		return
+	}
+	s := st.clone()
+	for v := range fx.assignedIn([]ast.Node{lit.Body}) {
+		cur, ok := s.vars[v]
+		if !ok || cur.Cl != nil || fx.boxed[v] {
+			continue
+		}
+		s.vars[v] = e.havocValue(s, v.Type(), v.Name())
+	}
+	e.havocAll(s)
+	na := e.ts.Fresh("alloc", SInt)
+	s.assume(e.ts.Ge(na, s.alloc))
+	s.alloc = na
+	var args []*Value
+	pv := fx.declVars(lit.Type.Params)
+	for i := 0; i < sig.Params().Len(); i++ {
+		a := e.havocValue(s, sig.Params().At(i).Type(), "cbarg")
+		fx.onRead(s, a, ce)
+		args = append(args, a)
+	}
+	pos := lit.Body.Lbrace + 1
+	b := fx.visibleBindings(s, pos)
+	for i, p := range pv {
+		if p != nil && i < len(args) {
+			b[p.Name()] = args[i]
+		}
+	}
+	for _, cl := range cc.Requires {
+		s.assume(fx.evalClause(s, nil, cl, b))
+	}
+	if c := fx.assert(s, "vacuity", "closure-"+name, e.ts.False(), lit, nil, "canary: the closure's precondition is satisfiable (must be refutable)"); c != nil {
+		c.Canary = true
+	}
+	pre := s.clone()
+	savedCase := fx.caseLabel
+	fx.caseLabel = ""
+	res := fx.inlineBody(s, lit.Type, lit.Body, sig, nil, nil, args, ce)
+	fx.caseLabel = savedCase
+	if s.dead {
+		return
+	}
+	b2 := fx.visibleBindings(s, pos)
+	for i, p := range pv {
+		if p != nil && i < len(args) {
+			b2[p.Name()] = args[i]
+		}
+	}
+	for i, r := range res {
+		b2[fmt.Sprintf("result%d", i)] = r
+		if len(res) == 1 {
+			b2["result"] = r
+		}
+	}
+	// old(x) of a captured variable is its value when the literal was entered
+	for k, v := range fx.visibleBindings(pre, pos) {
+		b2["old:"+k] = v
+	}
+	for _, cl := range cc.Ensures {
+		g := fx.evalClause(s, pre, cl, b2)
+		fx.assert(s, "closure-post", name+"/post"+fmt.Sprint(cl.Ord), g, lit, propsOr(cl.Props, fx.props), "postcondition of function literal "+name+": "+cl.Text)
+	}
+}
+
 // recvTypeName: the receiver's named type of a method ("" for functions).
 func recvTypeName(fi *FuncInfo) string {
 	if fi == nil || fi.Obj == nil {
@@ -883,6 +978,13 @@ func (fx *fctx) callContract(st *State, fi *FuncInfo, con *Contract, recv *Value
 	fx.preCallHooks(st, ce, args)
 	fx.callOrd[fi.Key]++
 	detail := fmt.Sprintf("%s.%d", fi.Key, fx.callOrd[fi.Key])
+	// function literals handed to a callee that is called by contract are never executed here; one that has a
+	// `closure litN` contract is verified once, as a unit, from an arbitrary state
+	for _, a := range args {
+		if a != nil && a.Cl != nil {
+			fx.verifyLiteralArg(st, a.Cl.Lit, ce)
+		}
+	}
 	// value-level type invariants on arguments (e.g. wf of *VMValue) are asserted by the escape hook
 	fx.beforeCall(st, recv, args, ce)
 	if recv != nil && recv.Tm != nil && e.implicitRecvNonNil(fi, con) {
@@ -986,6 +1088,7 @@ func (fx *fctx) havocForCall(st *State, fi *FuncInfo, con *Contract) {
 
 // sortOfFieldKey: the SMT sort of the heap named "Struct.field" (scalar fields only).
 func (e *Engine) sortOfFieldKey(key string) (Sort, bool) {
+	key = baseKey(key)
 	k := strings.Index(key, ".")
 	if k < 0 {
 		return "", false
@@ -1540,8 +1643,8 @@ func (fx *fctx) callDynamic(st *State, fv *Value, what string, ce *ast.CallExpr)
 				}
 				continue
 			}
-			if strings.HasPrefix(k, "elem.*") {
-				kept = append(kept, keptHeap{k, ArrSort(SInt)}) // cells holding pointers
+			if strings.HasPrefix(k, "elem.") {
+				kept = append(kept, keptHeap{k, ArrSort(SInt)}) // cells holding pointers / function values
 				continue
 			}
 			if srt, ok := e.sortOfFieldKey(k); ok {
